@@ -257,9 +257,18 @@ class SharesManager(BaseManager):
 
             new_shared_directories.append(shared_directory)
 
+        removed_directories = [
+            shared_directory for shared_directory in self._shared_directories
+            if shared_directory not in new_shared_directories
+        ]
         self._shared_directories = new_shared_directories
 
         self.rebuild_term_map()
+
+        # Directories that are no longer configured are dropped: their files are
+        # no longer shared, uploads need to be re-evaluated
+        for shared_directory in removed_directories:
+            self._event_bus.emit_sync(SharedDirectoryChangeEvent(shared_directory))
 
     def read_cache(self):
         """Read the directories from the cache"""
